@@ -20,13 +20,14 @@ package version
 //@   modifies nothing
 //@ end
 //@ func snapshot.Load
-//@   prop C15
+//@   prop C02 C15
 //@   arith math
 //@   requires s.version != nil && s.cache != nil && loader != nil
 //@   modifies nothing
+//@   ensures[readers_stay_pinned_until_the_snapshot_is_closed] calls(s.cache.ReleaseReaders) == old(calls(s.cache.ReleaseReaders))
 //@   ensures[no_error_means_every_candidate_file_was_consulted] result == nil ==> calls(s.cache.GetReader) == old(calls(s.cache.GetReader)) + len(versionFiles(s.version, key))
 //@   loop 1 invariant rangeindex >= -1 && rangeindex < len(files) && files == versionFiles(s.version, key)
-//@   loop 1 invariant calls(s.cache.GetReader) == old(calls(s.cache.GetReader)) + rangeindex + 1
+//@   loop 1 invariant calls(s.cache.GetReader) == old(calls(s.cache.GetReader)) + rangeindex + 1 && calls(s.cache.ReleaseReaders) == old(calls(s.cache.ReleaseReaders))
 //@   loop 1 invariant forall(i, 0, len(files), files[i] != nil)
 //@ end
 
@@ -320,4 +321,21 @@ package version
 //@   modifies v.ref.val, any(*familyVersion).activeVersions[*]
 //@   ensures[released_once] v.ref.val == old(v.ref.val) - 1
 //@   ensures[only_the_last_release_touches_the_registration] old(v.ref.val) != 1 ==> calls(v.fv.removeVersion) == old(calls(v.fv.removeVersion))
+//@ end
+
+//@ # ---- reference files of a rollup target (C04): the list by which a target family recognises the source files it has
+//@ # already merged is handed out as a faithful copy: same families, same files (an empty copy makes every file look new
+//@ # and it is rolled up a second time) ---------------------------------------------------------------------------
+//@ func rollup.getReferenceFiles
+//@   prop C04
+//@   arith math
+//@   requires r.referenceFiles != nil && all(st, "string", has(r.referenceFiles, st) ==> r.referenceFiles[st] != nil)
+//@   modifies nothing
+//@   ensures[exactly_the_families_of_the_store] result != nil && all(k, "FamilyID", has(result, k) == (has(r.referenceFiles, store) && has(r.referenceFiles[store], k)))
+//@   ensures[every_list_is_copied_with_its_full_length] all(k, "FamilyID", has(result, k) ==> len(result[k]) == len(r.referenceFiles[store][k]))
+//@   note attempted, not claimed: element-wise equality of the copied lists (the copy axiom does not instantiate reliably under the nested map view); the length of every copied list is proved
+//@   loop 1 invariant result != nil && families == r.referenceFiles[store] && has(r.referenceFiles, store) && fresh(result)
+//@   loop 1 invariant all(k, "FamilyID", has(result, k) == visited(families, k))
+//@   loop 1 invariant[len] all(k, "FamilyID", visited(families, k) ==> (has(families, k) && len(result[k]) == len(families[k])))
+//@   loop 1 invariant[fresh_lists] all(k, "FamilyID", visited(families, k) ==> (len(result[k]) == 0 || fresh(result[k])))
 //@ end
